@@ -62,6 +62,8 @@ Definition join_rows (a b : row) : res row :=
   do r <- (if pa <? pb then resolve_pair sa sb else resolve_pair sb sa);
   Ok (row_create [fst r; snd r] (qid a) (rid a) (qlen a) (rlen a) (rrev a)).
 
+Definition joined_ok (j : row) : bool := match row_pairs (rsegs j) with [] => false | _ => true end.
+
 (* AlignmentResults.filterOutSubsequentAlignmentsForSingleQuery / resolve *)
 Definition filter_subsequent (rows : list row) : list row :=
   flat_map (fun g => match g with [] => [] | x :: _ => [x] end)
@@ -74,7 +76,10 @@ Fixpoint resolve_groups (maxdiff : Z) (groups : list (list row)) : res (list row
     match g with
     | [] => Ok r
     | [x] => Ok (fst r, x :: snd r)
-    | x :: y :: _ => if check_overlap x y maxdiff then do j <- join_rows x y; Ok (j :: fst r, snd r)
+    | x :: y :: _ => if check_overlap x y maxdiff
+                     then do j <- join_rows x y;
+                          (* after repair F9 (`if resolved and resolved.alignedPairs`): a joined row without any pair does not replace its parts *)
+                          if joined_ok j then Ok (j :: fst r, snd r) else Ok (fst r, g ++ snd r)
                      else Ok (fst r, g ++ snd r)
     end
   end.
